@@ -802,7 +802,13 @@ func ToEntry(n Node) (e *Entry) {
 			}
 		case "action":
 			for _, r := range fv.Interface().([]*Action) {
-				e.add(r.Name, ToEntry(r))
+				a := ToEntry(r)
+				if a.RPC == nil {
+					// Like an rpc, an action has an input and an
+					// output even if it declares neither.
+					a.RPC = &RPCEntry{}
+				}
+				e.add(r.Name, a)
 			}
 		case "augment":
 			for _, a := range fv.Interface().([]*Augment) {
